@@ -51,7 +51,7 @@ def run(tier):
         rec = L.Rec()
         classes = ["generic", "z1", "z2", "z15"]
         nfiles = 0
-        rounds = 1 if tier == "quick" else 6
+        rounds = 3 if tier == "quick" else 6
         for rnd in range(rounds):
             for kinds in C.ORDERINGS:
                 for kc in (classes if tier == "thorough" else [classes[(rnd + len(kinds)) % 4], r.choice(classes)]):
